@@ -35,17 +35,24 @@ import (
 
 const waitDeadline = 40 * time.Second
 
+const (
+	wCur  = 1
+	wOld  = 2
+	wDead = 3
+)
+
 // Op is one step of the schedule (the K-level events of kcheck/C17K.v)
 type Op struct {
-	K    string `json:"k"`              // app | run | confirm | persist | stop | crash | start | replace | sync
+	K    string `json:"k"`              // app | run | confirm | persist | stop | crash | start | replace | sync | orun | oconfirm | write
 	Data []byte `json:"data,omitempty"` // app, replace: bytes
-	Mode string `json:"mode,omitempty"` // replace: rename | delete
+	Mode string `json:"mode,omitempty"` // replace: rename | delete | truncate; write: ok | comm | srv
 }
 
 type Replay struct {
 	B      int    `json:"recordMaxSize"`
 	Rpe    int    `json:"eventMaxRecords"`
-	Format string `json:"format"` // pure | text
+	Format string `json:"format"` // pure | text | k8json | logfmt
+	Stream string `json:"stream,omitempty"` // "" = the scanner with the harness as its consumer; collector = client/collector.Run with a stand-in api.Client
 	Init   []byte `json:"init"`   // content of the file when the scanner first starts
 	Ops    []Op   `json:"ops"`
 	steps  int
@@ -54,7 +61,8 @@ type Replay struct {
 // ---------- the context ----------
 type sleepReq struct {
 	gid     int64
-	partial bool
+	partial bool // utils.Sleep called by lineReader.readLine
+	coll    bool // utils.Sleep called by collector.Run (its 5 s pause before it writes an event again)
 	release chan struct{}
 }
 type sctx struct {
@@ -79,7 +87,7 @@ func (c *sctx) Err() error {
 }
 
 // sleepCaller: 0 = Done() was not called by utils.Sleep; 1 = utils.Sleep called by lineReader.readLine;
-// 2 = utils.Sleep called from elsewhere (worker.sendOrSleep)
+// 3 = utils.Sleep called by collector.Run; 2 = utils.Sleep called from elsewhere (worker.sendOrSleep)
 func sleepCaller() int {
 	pcs := make([]uintptr, 16)
 	n := runtime.Callers(3, pcs)
@@ -90,6 +98,9 @@ func sleepCaller() int {
 		if inSleep {
 			if strings.Contains(f.Function, "readLine") {
 				return 1
+			}
+			if strings.Contains(f.Function, "collector.Run") {
+				return 3
 			}
 			return 2
 		}
@@ -122,7 +133,7 @@ func (c *sctx) Done() <-chan struct{} {
 	if k == 0 {
 		return c.cancelCh
 	}
-	req := &sleepReq{gid: curGid(), partial: k == 1, release: make(chan struct{})}
+	req := &sleepReq{gid: curGid(), partial: k == 1, coll: k == 3, release: make(chan struct{})}
 	select {
 	case c.sleepCh <- req:
 	case <-c.cancelCh:
@@ -168,10 +179,17 @@ type driver struct {
 	phase   string             // sleep | wait | down
 	held    *sleepReq          // phase sleep
 	hev     *model.Event       // an event received and not confirmed yet (may be stale after a stop)
-	orphans map[int64]bool     // goroutine ids of workers the scanner has replaced
-	parked  []*sleepReq        // sleeping orphans (held until the end)
-	seen    map[int64]bool
+	owner   map[int64]int      // goroutine id -> wCur | wOld | wDead (a worker is known by its goroutine once it has slept)
+	parked  []*sleepReq        // sleeping abandoned workers (held until the end)
 	graceful bool              // phase down: after a stop (true) or a crash (false)
+	// the worker of the file that was rotated away (told to stop at EOF by the sync that noticed it)
+	ophase string       // "" (none) | sleep | wait | done
+	oheld  *sleepReq
+	ohev   *model.Event
+	oid    string       // its descriptor id
+	oo     *oracle      // the property on its hand-over stream
+	gen    *lineGen
+	rotPending bool // the file at the path was replaced while the scanner runs and no sync has followed yet
 
 	ids  []string // file identities seen, in order
 	kevs []string
@@ -182,6 +200,10 @@ type driver struct {
 }
 
 func (d *driver) cfg() *scanner.Config {
+	var dateFmts []string
+	if d.rp.Format == "text" {
+		dateFmts = []string{"DD/MMM/YYYY:HH:mm:ss ZZZZ"} // (a date format is an error for the other data formats)
+	}
 	return &scanner.Config{
 		IncludePaths:           []string{filepath.Join(d.dir, "logs", "*.log")},
 		SyncWorkersIntervalSec: 3600,
@@ -189,7 +211,8 @@ func (d *driver) cfg() *scanner.Config {
 		RecordMaxSizeBytes:     d.rp.B,
 		EventMaxRecords:        d.rp.Rpe,
 		Schemas: []*scanner.SchemaConfig{{PathMatcher: "/*(?:.+/)*(?P<file>.+\\..+)", DataFormat: parser.DataFormat(d.rp.Format),
-			Meta: scanner.Meta{Tags: map[string]string{"file": "{file}"}}}},
+			DateFormats: dateFmts,
+			Meta: scanner.Meta{Tags: map[string]string{"file": "{file}"}, Fields: map[string]string{"level": "lvl"}}}},
 	}
 }
 
@@ -206,7 +229,8 @@ func (d *driver) start() error {
 	}
 	p.h = h
 	d.p = p
-	d.orphans, d.seen, d.parked, d.held = map[int64]bool{}, map[int64]bool{}, nil, nil
+	d.owner, d.parked, d.held = map[int64]int{}, nil, nil
+	d.ophase, d.oheld, d.ohev, d.oo = "", nil, nil, nil
 	return nil
 }
 
@@ -227,6 +251,7 @@ func (d *driver) stopProc(crash bool) {
 		d.err = fmt.Errorf("scanner did not shut down")
 	}
 	d.held, d.parked = nil, nil
+	d.ophase, d.oheld, d.ohev = "", nil, nil
 	d.p = nil
 }
 
@@ -243,37 +268,82 @@ func gRecs(recs [][]byte) string {
 	return GList(it)
 }
 
-// settle waits until the current worker blocks again: in a sleep (recorded as OSleep) or offering an
-// event (received at once, recorded as OHand). Returns false on a deviation.
-func (d *driver) settle(where string) bool {
+// settle waits until the worker that was released (who: wCur, the worker of the file at the path; wOld, the
+// worker of the file that was rotated away) blocks again: in a sleep (recorded as OSleep), offering an event
+// (received at once, recorded as OHand), or - the old worker only - having returned (OExit).
+// Every other worker is blocked at a point the driver controls. Returns false on a deviation.
+func (d *driver) settle(who int, where string) bool {
+	tick := time.NewTicker(2 * time.Millisecond)
+	defer tick.Stop()
+	deadline := time.After(waitDeadline)
 	for {
 		select {
 		case req := <-d.p.ctx.sleepCh:
-			if d.orphans[req.gid] {
-				d.parked = append(d.parked, req) // a replaced worker stays asleep
+			ow, known := d.owner[req.gid]
+			if !known {
+				ow = who
+				d.owner[req.gid] = who
+			}
+			if ow == wDead {
+				d.parked = append(d.parked, req) // an abandoned worker stays asleep
 				continue
 			}
-			d.seen[req.gid] = true
-			d.held = req
-			d.phase = "sleep"
+			if ow != who {
+				d.other(8, "sleep-of-a-blocked-worker", "a worker that was not released went to sleep "+where)
+				return false
+			}
 			d.obs = append(d.obs, GApp("OSleep", GBool(req.partial)))
-			d.o.sleep(req.partial, d)
+			if who == wCur {
+				d.held, d.phase = req, "sleep"
+				d.o.sleep(req.partial, d)
+			} else {
+				d.oheld, d.ophase = req, "sleep"
+				d.oo.sleep(req.partial, d)
+			}
 			return true
 		case ev := <-d.p.events:
 			var recs [][]byte
 			for _, r := range ev.Records {
 				recs = append(recs, append([]byte{}, r.Data...))
 			}
-			d.hev = ev
-			d.phase = "wait"
-			d.obs = append(d.obs, GApp("OHand", gRecs(recs)))
-			d.o.hand(recs, ev.File, d)
+			var ext [][]byte
+			if who == wCur {
+				d.hev, d.phase = ev, "wait"
+				ext = d.o.hand(recs, ev.File, d)
+			} else {
+				d.ohev, d.ophase = ev, "wait"
+				ext = d.oo.hand(recs, ev.File, d)
+			}
+			d.obs = append(d.obs, GApp("OHand", gRecs(ext)))
 			return true
-		case <-time.After(waitDeadline):
+		case <-tick.C:
+			if who == wOld && d.oldStopped() {
+				d.ophase = "done"
+				d.tag["rotated-worker-returned"]++
+				d.obs = append(d.obs, "OExit")
+				d.oo.drained(d)
+				return true
+			}
+		case <-deadline:
 			d.other(9, "worker-stuck", "the worker neither slept nor offered an event within the deadline "+where)
 			return false
 		}
 	}
+}
+
+// the worker of the rotated-away file, as the scanner sees it
+func (d *driver) oldWorker() *scanner.VC17Worker {
+	for _, w := range d.p.h.Workers() {
+		if w.Id == d.oid && !w.Current {
+			w := w
+			return &w
+		}
+	}
+	return nil
+}
+func (d *driver) oldStopped() bool {
+	w := d.oldWorker()
+	return w != nil && w.Stopped
 }
 
 type pdesc struct {
@@ -364,7 +434,7 @@ func (d *driver) apply(op Op) bool {
 		req := d.held
 		d.held = nil
 		close(req.release)
-		return d.settle("after a sleep")
+		return d.settle(wCur, "after a sleep")
 	case "confirm":
 		d.kevs = append(d.kevs, "KConfirm")
 		if d.hev == nil {
@@ -385,7 +455,7 @@ func (d *driver) apply(op Op) bool {
 		}
 		// the worker sets the offset and reads on; when it blocks again the offset is set
 		n0 := len(d.obs)
-		if !d.settle("after a confirmation") {
+		if !d.settle(wCur, "after a confirmation") {
 			return false
 		}
 		off, okd := d.descOffset()
@@ -457,7 +527,7 @@ func (d *driver) apply(op Op) bool {
 		}
 		d.obs = append(d.obs, GApp("ORestart", GNat(int(off))))
 		d.o.restart(off, d)
-		return d.settle("after the start")
+		return d.settle(wCur, "after the start")
 	case "replace":
 		old := d.fileId()
 		if op.Mode == "rename" {
@@ -481,6 +551,7 @@ func (d *driver) apply(op Op) bool {
 		id := d.idOf(d.fileId())
 		d.o.replaced(id, d)
 		d.content = append([]byte{}, op.Data...)
+		d.rotPending = d.phase != "down"
 		d.kevs = append(d.kevs, GApp("KReplace", GNat(id), GBytes(op.Data)))
 		switch {
 		case id == d.idOf(old):
@@ -496,10 +567,15 @@ func (d *driver) apply(op Op) bool {
 			return true
 		}
 		before := map[string]bool{}
+		oldId := ""
 		for _, w := range d.p.h.Workers() {
-			before[w.Id] = true
+			if w.Current { // (a worker that is not: one that drains, or has drained, a rotated-away file)
+				before[w.Id] = true
+				oldId = w.Id
+			}
 		}
 		d.p.h.Sync()
+		d.rotPending = false
 		fresh := false
 		for _, w := range d.p.h.Workers() {
 			if !before[w.Id] && w.Current {
@@ -507,20 +583,69 @@ func (d *driver) apply(op Op) bool {
 			}
 		}
 		if fresh {
-			for g := range d.seen {
-				d.orphans[g] = true
+			// the worker of the file that was at the path goes on with the file it has open, told to stop at
+			// EOF; a worker that was draining already is abandoned (it stays blocked where it is)
+			if d.oheld != nil {
+				d.parked = append(d.parked, d.oheld)
 			}
-			d.seen = map[int64]bool{}
-			d.hev = nil // an event of the replaced worker can no longer be confirmed to the current one
-			if d.held != nil {
-				d.parked = append(d.parked, d.held)
-				d.held = nil
+			for g, ow := range d.owner {
+				if ow == wOld {
+					d.owner[g] = wDead
+				} else if ow == wCur {
+					d.owner[g] = wOld
+				}
 			}
+			d.ophase, d.oheld, d.ohev, d.oid = d.phase, d.held, d.hev, oldId
+			d.held, d.hev = nil, nil
+			d.oo = d.o.forOld(d)
+			d.tag["rotated-worker-"+d.ophase]++
 			off, _ := d.descOffset()
 			d.obs = append(d.obs, GApp("OFresh", GNat(int(off))))
 			d.o.fresh(d)
-			return d.settle("after a sync that started a worker")
+			return d.settle(wCur, "after a sync that started a worker")
 		}
+	case "orun":
+		d.kevs = append(d.kevs, "KOldRun")
+		if d.phase == "down" || d.ophase != "sleep" {
+			return true
+		}
+		req := d.oheld
+		d.oheld = nil
+		close(req.release)
+		return d.settle(wOld, "after a sleep of the rotated file's worker")
+	case "oconfirm":
+		d.kevs = append(d.kevs, "KOldConfirm")
+		if d.phase == "down" {
+			return true
+		}
+		if d.ohev == nil {
+			d.obs = append(d.obs, GApp("OConf", GBool(false)))
+			return true
+		}
+		ev := d.ohev
+		d.ohev = nil
+		ok := ev.Confirm()
+		d.obs = append(d.obs, GApp("OConf", GBool(ok)))
+		d.oo.confirm(ok)
+		if !ok {
+			return true
+		}
+		if d.ophase != "wait" {
+			d.other(3, "confirm-accepted-by-nobody", "Confirm() returned true although the rotated file's worker was not waiting")
+			return false
+		}
+		n0 := len(d.obs)
+		if !d.settle(wOld, "after a confirmation to the rotated file's worker") {
+			return false
+		}
+		w := d.oldWorker()
+		if w == nil {
+			d.other(4, "descriptor-missing", "the rotated file's worker is unknown to the scanner after a confirmation")
+			return false
+		}
+		rest := append([]string{}, d.obs[n0:]...)
+		d.obs = append(append(d.obs[:n0], GApp("OOffset", GNat(int(w.Offset)))), rest...)
+		d.oo.offset(w.Offset)
 	default:
 		d.err = fmt.Errorf("unknown op %q", op.K)
 		return false
@@ -531,6 +656,7 @@ func (d *driver) apply(op Op) bool {
 // ---------- the oracle: the property on the observations (independent of the Coq model) ----------
 type oracle struct {
 	viol *Violation
+	root *oracle // the old worker's stream reports into the case's oracle
 	// the file the current worker reads and where the hand-over stream stands in it
 	wfile    []byte // nil: the worker reads the file at the path (d.content)
 	pos      int64  // end of the last handed-over record
@@ -553,9 +679,43 @@ type oracle struct {
 var recorded = map[string]bool{"replaced-file-same-inode-not-shorter-not-read-from-start": true}
 
 func (o *oracle) fail(class, detail string) {
+	if o.root != nil {
+		o.root.fail(class, "[worker of the rotated-away file] "+detail)
+		return
+	}
 	if o.viol == nil || (recorded[o.viol.Class] && !recorded[class]) {
 		o.viol = &Violation{Class: class, Detail: detail}
 	}
+}
+
+// forOld: the hand-over stream of the worker that goes on with the file it has open after a rotation
+func (o *oracle) forOld(d *driver) *oracle {
+	oo := &oracle{root: o, pos: o.pos, conf: o.conf, awaiting: o.awaiting, ends: map[int64]bool{}}
+	for k := range o.ends {
+		oo.ends[k] = true
+	}
+	oo.wfile = append([]byte{}, o.file(d)...)
+	if o.wfile == nil {
+		// not replaced at all (cannot happen: a fresh worker needs a new identity)
+		oo.wfile = append([]byte{}, d.content...)
+	}
+	return oo
+}
+
+// drained: the worker of the rotated-away file has returned on its own; every complete line of that file
+// (the harness does not write to it after the rotation) must have been handed over and confirmed
+func (o *oracle) drained(d *driver) {
+	f := o.file(d)
+	last := int64(bytes.LastIndexByte(f, '\n') + 1)
+	if o.conf < last {
+		o.fail("rotated-file-not-drained", fmt.Sprintf("the worker returned with bytes up to %d confirmed (handed over up to %d); the file it had open holds complete lines up to %d", o.conf, o.pos, last))
+	}
+}
+func (o *oracle) top() *oracle {
+	if o.root != nil {
+		return o.root
+	}
+	return o
 }
 func (o *oracle) file(d *driver) []byte {
 	if o.wfile != nil {
@@ -563,27 +723,59 @@ func (o *oracle) file(d *driver) []byte {
 	}
 	return d.content
 }
-func (o *oracle) hand(recs [][]byte, file string, d *driver) {
+// hand: an event reached the consumer. Returns, per record, the bytes of the file it stands for: the payload
+// itself for pure and text; for k8json and logfmt the line whose independent reading gives the payload
+// (the payload itself if there is no such line - the oracle has failed then).
+func (o *oracle) hand(recs [][]byte, file string, d *driver) [][]byte {
 	f := o.file(d)
 	B := d.rp.B
+	ext := make([][]byte, 0, len(recs))
+	jsonFmt := d.rp.Format == "k8json" || d.rp.Format == "logfmt"
+	bad := false
 	for _, r := range recs {
-		end := o.pos + int64(len(r))
-		if end > int64(len(f)) || !bytes.Equal(f[o.pos:end], r) {
-			o.fail("payload-not-the-next-file-bytes", fmt.Sprintf("record %q handed over at offset %d; the file continues with %q", trunc(r), o.pos, trunc(f[minI(o.pos, int64(len(f))):minI(end, int64(len(f)))])))
-			return
+		if bad {
+			ext = append(ext, r)
+			continue
 		}
-		if len(r) == 0 || (r[len(r)-1] != '\n' && len(r) < B) {
+		x := r
+		if jsonFmt {
+			n := bytes.IndexByte(f[minI(o.pos, int64(len(f))):], '\n')
+			if n < 0 {
+				o.fail("payload-not-the-next-file-bytes", fmt.Sprintf("record %q handed over at offset %d; no complete line follows in the file", trunc(r), o.pos))
+				bad = true
+				ext = append(ext, r)
+				continue
+			}
+			x = f[o.pos : o.pos+int64(n)+1]
+			want, ok := refLog(x)
+			if !ok || !bytes.Equal(want, r) {
+				o.fail("payload-not-the-projection-of-the-next-line", fmt.Sprintf("record %q handed over at offset %d; the next line is %q, whose log field reads %q", trunc(r), o.pos, trunc(x), trunc(want)))
+				bad = true
+				ext = append(ext, r)
+				continue
+			}
+		}
+		end := o.pos + int64(len(x))
+		if end > int64(len(f)) || !bytes.Equal(f[o.pos:end], x) {
+			o.fail("payload-not-the-next-file-bytes", fmt.Sprintf("record %q handed over at offset %d; the file continues with %q", trunc(r), o.pos, trunc(f[minI(o.pos, int64(len(f))):minI(end, int64(len(f)))])))
+			bad = true
+			ext = append(ext, r)
+			continue
+		}
+		if len(x) == 0 || (x[len(x)-1] != '\n' && len(x) < B) {
 			o.fail("record-neither-line-nor-full-buffer", fmt.Sprintf("record %q at offset %d does not end a line and is shorter than the record limit %d", trunc(r), o.pos, B))
 		}
-		if r[len(r)-1] != '\n' {
-			o.split = true
+		if len(x) > 0 && x[len(x)-1] != '\n' {
+			o.top().split = true
 		}
+		ext = append(ext, append([]byte{}, x...))
 		o.pos = end
 	}
 	if file != d.path {
 		o.fail("event-file-name", file)
 	}
 	o.awaiting = true
+	return ext
 }
 func (o *oracle) confirm(ok bool) {
 	if ok {
@@ -672,7 +864,7 @@ func (o *oracle) sleep(partial bool, d *driver) {
 	if partial || (len(f) > 0 && f[len(f)-1] != '\n') {
 		// the end of the file fell inside a line (partial: the sleep was the one inside readLine, which the
 		// repaired reader no longer has)
-		o.partial = true
+		o.top().partial = true
 	}
 	if o.awaiting || o.wfile != nil {
 		return
@@ -712,6 +904,119 @@ func trunc(b []byte) []byte {
 // ---------- generation ----------
 var alphabet = []byte("abcdefghijklmnopqrstuvwxyz0123456789 \t\r=\"{}\x00\x01\x7f\x80\xfe\xff")
 
+// lineGen makes the lines of one case
+type lineGen struct {
+	format string
+	n      int
+}
+
+// refLog is the harness' own reading of a k8json/logfmt line: the value of its leading "log" member
+// (escapes \" \\ \/ \b \f \n \r \t \u00XX; anything else as it stands). It shares no code with encoding/json.
+func refLog(line []byte) ([]byte, bool) {
+	const pre = `{"log":"`
+	if !bytes.HasPrefix(line, []byte(pre)) {
+		return nil, false
+	}
+	var out []byte
+	for i := len(pre); i < len(line); i++ {
+		c := line[i]
+		switch {
+		case c == '"':
+			return out, true
+		case c == '\\':
+			i++
+			if i >= len(line) {
+				return nil, false
+			}
+			switch line[i] {
+			case '"', '\\', '/':
+				out = append(out, line[i])
+			case 'b':
+				out = append(out, 8)
+			case 'f':
+				out = append(out, 12)
+			case 'n':
+				out = append(out, '\n')
+			case 'r':
+				out = append(out, '\r')
+			case 't':
+				out = append(out, '\t')
+			case 'u':
+				if i+4 >= len(line) {
+					return nil, false
+				}
+				v, err := strconv.ParseUint(string(line[i+1:i+5]), 16, 16)
+				if err != nil || v > 0x7f {
+					return nil, false
+				}
+				out = append(out, byte(v))
+				i += 4
+			default:
+				return nil, false
+			}
+		default:
+			out = append(out, c)
+		}
+	}
+	return nil, false
+}
+
+var msgAlphabet = []byte("abcdefghijklmnopqrstuvwxyz0123456789 =\"\\/{}:,\t")
+
+// jsonString encodes a message the way a container runtime would: quotes, backslashes and control bytes
+// escaped, everything else (valid UTF-8) as it is
+func jsonString(msg []byte) []byte {
+	out := []byte{'"'}
+	for _, c := range msg {
+		switch {
+		case c == '"':
+			out = append(out, '\\', '"')
+		case c == '\\':
+			out = append(out, '\\', '\\')
+		case c == '\n':
+			out = append(out, '\\', 'n')
+		case c == '\t':
+			out = append(out, '\\', 't')
+		case c < 0x20:
+			out = append(out, []byte(fmt.Sprintf("\\u%04x", c))...)
+		default:
+			out = append(out, c)
+		}
+	}
+	return append(out, '"')
+}
+
+func (g *lineGen) line(r *Rng, B int) []byte {
+	if g.format != "k8json" && g.format != "logfmt" {
+		l := genLine(r, B)
+		if g.format == "text" && r.Chance(1, 4) && len(l)+27 < B {
+			// a line that begins with a date in the configured format (the record's time is not part of C17)
+			l = append([]byte(fmt.Sprintf("%02d/Mar/2019:10:%02d:%02d +0000 ", 1+r.Intn(28), r.Intn(60), r.Intn(60))), l...)
+		}
+		return l
+	}
+	g.n++
+	var msg []byte
+	switch x := r.Intn(10); {
+	case x < 1:
+	case x < 3 && g.format == "logfmt":
+		msg = []byte(fmt.Sprintf("level=%s msg=\"%s\" n=%d", r.PickStr("info", "warn", "error"), r.Bytes(r.Range(0, 12), []byte("abc xyz")), g.n))
+	case x < 5:
+		msg = append(r.Bytes(r.Range(1, 30), msgAlphabet), '\n') // the usual shape: the log line with its newline
+	case x < 6:
+		msg = []byte("h\xc3\xa9llo w\xc3\xb6rld \xe2\x82\xac \x01\x02")
+	default:
+		msg = r.Bytes(r.Range(1, 40), msgAlphabet)
+	}
+	l := append([]byte(`{"log":`), jsonString(msg)...)
+	l = append(l, []byte(fmt.Sprintf(`,"stream":"%s","time":"2019-03-%02dT10:%02d:%02d.%09dZ"}`, r.PickStr("stdout", "stderr"), 1+r.Intn(28), r.Intn(60), r.Intn(60), g.n))...)
+	l = append(l, '\n')
+	if got, ok := refLog(l); !ok || !bytes.Equal(got, msg) {
+		panic(fmt.Sprintf("generator and reference reading disagree on %q", l))
+	}
+	return l
+}
+
 func genLine(r *Rng, B int) []byte {
 	var n int
 	switch x := r.Intn(100); {
@@ -737,10 +1042,10 @@ func genLine(r *Rng, B int) []byte {
 }
 
 // genText: lines; cut into pieces anywhere; maybe no final newline
-func genPieces(r *Rng, B, budget int) [][]byte {
+func (g *lineGen) pieces(r *Rng, B, budget int) [][]byte {
 	var text []byte
 	for len(text) < budget {
-		l := genLine(r, B)
+		l := g.line(r, B)
 		if len(text)+len(l) > budget+B {
 			break
 		}
@@ -749,7 +1054,9 @@ func genPieces(r *Rng, B, budget int) [][]byte {
 			break
 		}
 	}
-	if len(text) > 0 && r.Chance(1, 4) {
+	if len(text) > 0 && r.Chance(1, 4) && g.format != "k8json" && g.format != "logfmt" {
+		// (a k8json/logfmt line joined with the next one would not be JSON: the worker returns with an error
+		// at such a line, see docs/C17.md; their EOF-inside-a-line comes from the cuts below only)
 		text = text[:len(text)-1-r.Intn(minInt(len(text), 3))]
 	}
 	var pieces [][]byte
@@ -777,7 +1084,7 @@ func minInt(a, b int) int {
 func (d *driver) draw(r *Rng, pending *[][]byte, total *int) Op {
 	nextPiece := func() (Op, bool) {
 		if len(*pending) == 0 && *total < 420 {
-			*pending = genPieces(r, d.rp.B, r.PickInt(20, 80, 150, 260))
+			*pending = d.gen.pieces(r, d.rp.B, r.PickInt(20, 80, 150, 260))
 		}
 		if len(*pending) == 0 {
 			return Op{}, false
@@ -788,6 +1095,23 @@ func (d *driver) draw(r *Rng, pending *[][]byte, total *int) Op {
 		return Op{K: "app", Data: p}, true
 	}
 	x := r.Intn(100)
+	if d.phase != "down" {
+		// a rotation that has not been noticed yet: the sync is likely to come next
+		if d.rotPending && r.Chance(3, 5) {
+			return Op{K: "sync"}
+		}
+		// the worker of the rotated-away file, while there is one
+		if (d.ophase == "sleep" || d.ophase == "wait") && r.Chance(2, 5) {
+			switch {
+			case r.Chance(1, 12):
+				return Op{K: r.PickStr("orun", "oconfirm")} // possibly not enabled
+			case d.ophase == "sleep":
+				return Op{K: "orun"}
+			default:
+				return Op{K: "oconfirm"}
+			}
+		}
+	}
 	switch d.phase {
 	case "sleep":
 		switch {
@@ -809,7 +1133,8 @@ func (d *driver) draw(r *Rng, pending *[][]byte, total *int) Op {
 		case x < 97:
 			return Op{K: "sync"}
 		default: // while the scanner runs only rename+create (always a new identity)
-			return Op{K: "replace", Mode: "rename", Data: flat(genPieces(r, d.rp.B, r.PickInt(10, 60, 200)))}
+			*pending = nil // what was still to be appended belonged to the old file
+			return Op{K: "replace", Mode: "rename", Data: flat(d.gen.pieces(r, d.rp.B, r.PickInt(10, 60, 200)))}
 		}
 	case "wait":
 		switch {
@@ -826,10 +1151,13 @@ func (d *driver) draw(r *Rng, pending *[][]byte, total *int) Op {
 			return Op{K: "stop"}
 		case x < 93:
 			return Op{K: "crash"}
-		case x < 96:
+		case x < 94:
 			return Op{K: "sync"}
+		case x < 98: // rotated while a confirmation is pending
+			*pending = nil // what was still to be appended belonged to the old file
+			return Op{K: "replace", Mode: "rename", Data: flat(d.gen.pieces(r, d.rp.B, r.PickInt(10, 60, 200)))}
 		default:
-			return Op{K: "run"} // not enabled
+			return Op{K: r.PickStr("run", "orun", "oconfirm")} // not enabled
 		}
 	default: // down
 		switch {
@@ -845,7 +1173,13 @@ func (d *driver) draw(r *Rng, pending *[][]byte, total *int) Op {
 		case x < 93:
 			return Op{K: "persist"} // no process: nothing happens
 		default:
-			return Op{K: "replace", Mode: r.PickStr("rename", "delete", "truncate"), Data: flat(genPieces(r, d.rp.B, r.PickInt(10, 60, 200, 300)))}
+			*pending = nil
+			if d.rp.Format == "k8json" || d.rp.Format == "logfmt" {
+				// (a new file that keeps the identity is continued at the old offset - the recorded finding -, i.e. in
+				// the middle of a JSON line here: the worker returns with an error; pure and text cover that finding)
+				return Op{K: "replace", Mode: "rename", Data: flat(d.gen.pieces(r, d.rp.B, r.PickInt(10, 60, 200, 300)))}
+			}
+			return Op{K: "replace", Mode: r.PickStr("rename", "delete", "truncate"), Data: flat(d.gen.pieces(r, d.rp.B, r.PickInt(10, 60, 200, 300)))}
 		}
 	}
 }
@@ -859,12 +1193,15 @@ func flat(p [][]byte) []byte {
 }
 
 func runCase(rp *Replay, r *Rng) (*Case, error) {
+	if rp.Stream == "collector" {
+		return runCollectorCase(rp, r)
+	}
 	dir := TempDir("c17")
 	defer RemoveAll(dir)
 	if err := os.MkdirAll(filepath.Join(dir, "logs"), 0755); err != nil {
 		return nil, err
 	}
-	d := &driver{rp: rp, dir: dir, path: filepath.Join(dir, "logs", "app.log"), tag: map[string]int{}, phase: "down"}
+	d := &driver{rp: rp, dir: dir, path: filepath.Join(dir, "logs", "app.log"), tag: map[string]int{}, phase: "down", gen: &lineGen{format: rp.Format}}
 	d.o.ends = map[int64]bool{0: true}
 	if err := d.writeFile(rp.Init, false); err != nil {
 		return nil, err
@@ -914,7 +1251,7 @@ func runCase(rp *Replay, r *Rng) (*Case, error) {
 	return &Case{
 		Coq:        GApp("KCase", GNat(rp.B), GNat(rp.Rpe), GBytes(rp.Init), GList(d.kevs), GList(d.obs)),
 		Replay:     rp,
-		NonTrivial: d.o.split || d.o.partial,
+		NonTrivial: d.o.split || d.o.partial || d.tag["rotated-worker-returned"] > 0,
 		Oracle:     d.o.viol,
 		Stream:     "scanner",
 		Tags:       tags,
@@ -936,16 +1273,46 @@ func corpus() []*Replay {
 		// same inode but shorter than the saved offset: read from 0
 		{B: 64, Rpe: 1, Format: "text", Init: bs("abcdef\n"), Ops: []Op{{K: "start"}, {K: "confirm"}, {K: "stop"},
 			{K: "replace", Mode: "truncate", Data: bs("x\n")}, {K: "start"}, {K: "confirm"}}},
+		// same inode, longer than the saved Offset but shorter than the saved LastSeenSize (the collector lagged behind
+		// when the file was truncated and rewritten): read from 0
+		{B: 64, Rpe: 1, Format: "pure", Init: bs("aaaa\nbbbb\n"), Ops: []Op{{K: "start"}, {K: "confirm"}, {K: "stop"},
+			{K: "replace", Mode: "truncate", Data: bs("xxxxxx\n")}, {K: "start"}, {K: "confirm"}}},
+		// same inode, not shorter than the saved LastSeenSize (stale: the growth was shipped between two scans) but
+		// shorter than the saved Offset: read from 0
+		{B: 64, Rpe: 1, Format: "pure", Init: bs("aa\n"), Ops: []Op{{K: "start"}, {K: "confirm"}, {K: "app", Data: bs("bbbb\n")}, {K: "run"}, {K: "confirm"}, {K: "stop"},
+			{K: "replace", Mode: "truncate", Data: bs("cccc\n")}, {K: "start"}, {K: "confirm"}}},
 		// split line, EOF inside a line, stalled consumer, persist, crash, re-send after the restart
 		{B: 64, Rpe: 2, Format: "pure", Init: bs("a\n" + b16 + "b"), Ops: []Op{{K: "start"}, {K: "app", Data: bs("c\nd")}, {K: "confirm"}, {K: "persist"},
 			{K: "run"}, {K: "app", Data: bs("\n")}, {K: "run"}, {K: "crash"}, {K: "start"}, {K: "confirm"}, {K: "stop"}, {K: "start"}}},
 		// rotation by rename+create while running and while down
 		{B: 64, Rpe: 3, Format: "pure", Init: bs("one\ntwo\n"), Ops: []Op{{K: "start"}, {K: "confirm"}, {K: "persist"}, {K: "replace", Mode: "rename", Data: bs("new1\nnew2\n")},
 			{K: "sync"}, {K: "confirm"}, {K: "persist"}, {K: "stop"}, {K: "replace", Mode: "rename", Data: bs("third\n")}, {K: "start"}, {K: "confirm"}}},
+		// rotated away while the worker is behind (a confirmation pending) and the lines left are not a multiple of
+		// EventMaxRecords: the old file is drained, its last partial batch included, then its worker returns
+		{B: 64, Rpe: 2, Format: "pure", Init: bs("l1\nl2\nl3\nl4\nl5\n"), Ops: []Op{{K: "start"}, {K: "replace", Mode: "rename", Data: bs("new\n")}, {K: "sync"},
+			{K: "oconfirm"}, {K: "oconfirm"}, {K: "oconfirm"}, {K: "confirm"}, {K: "orun"}, {K: "oconfirm"}, {K: "persist"}}},
+		// witness of C17_drain_stale_check_refuted: "b\n" appended and the file rotated away while the worker sleeps at
+		// EOF; the worker reads once more before it returns
+		{B: 64, Rpe: 2, Format: "pure", Init: bs("a\n"), Ops: []Op{{K: "start"}, {K: "confirm"}, {K: "app", Data: bs("b\n")}, {K: "replace", Mode: "rename", Data: bs("n\n")},
+			{K: "sync"}, {K: "orun"}, {K: "oconfirm"}, {K: "confirm"}}},
+		// the same while the worker waits for the confirmation of its EOF flush
+		{B: 64, Rpe: 3, Format: "text", Init: bs("a\n"), Ops: []Op{{K: "start"}, {K: "app", Data: bs("b\nc")}, {K: "replace", Mode: "rename", Data: bs("n\n")},
+			{K: "sync"}, {K: "oconfirm"}, {K: "oconfirm"}, {K: "orun"}, {K: "confirm"}, {K: "run"}}},
+		// k8json and logfmt: the payload is the log member of the line
+		{B: 256, Rpe: 2, Format: "k8json", Init: bs(`{"log":"one\n","stream":"stdout","time":"2019-03-01T10:00:00.000000001Z"}` + "\n" + `{"log":"tw\"o\\","stream":"stderr","time":"2019-03-01T10:00:01Z"}` + "\n" + `{"log":"thr`),
+			Ops: []Op{{K: "start"}, {K: "confirm"}, {K: "app", Data: bs(`ee","stream":"stdout","time":"2019-03-01T10:00:02Z"}` + "\n")}, {K: "run"}, {K: "confirm"}, {K: "persist"}, {K: "stop"}, {K: "start"}}},
+		{B: 256, Rpe: 1, Format: "logfmt", Init: bs(`{"log":"level=info msg=\"hi\" n=1","stream":"stdout","time":"2019-03-01T10:00:00Z"}` + "\n"),
+			Ops: []Op{{K: "start"}, {K: "confirm"}, {K: "crash"}, {K: "start"}, {K: "confirm"}}},
+		// collector.Run as the consumer: a write the server fails is written again (witness of
+		// C17_stored_confirm_on_server_error_refuted), a communication error too; stop, append, start
+		{Stream: "collector", B: 64, Rpe: 2, Format: "pure", Init: bs("1\n2\n3\n4\n"), Ops: []Op{{K: "start"}, {K: "write", Mode: "ok"}, {K: "write", Mode: "srv"},
+			{K: "write", Mode: "comm"}, {K: "write", Mode: "ok"}, {K: "stop"}, {K: "app", Data: bs("5\n6\n")}, {K: "start"}, {K: "write", Mode: "ok"}, {K: "run"}}},
+		// stopped during the pause after a failed write: the event is sent again by the next process
+		{Stream: "collector", B: 64, Rpe: 1000, Format: "text", Init: bs("x\ny\n"), Ops: []Op{{K: "start"}, {K: "write", Mode: "srv"}, {K: "stop"}, {K: "start"}, {K: "write", Mode: "ok"}, {K: "crash"}, {K: "start"}, {K: "write", Mode: "ok"}}},
 	}
 }
 
-const rule = "a file of lines (lengths 0, 1-12, B-1, B, B+1, B+2, 2B+3 incl. newline; bytes incl. NUL, 0x80-0xff, CR, quotes; final newline missing in 1/4) appended in 1-20 pieces cut anywhere, scheduled online against the real scanner: append / release the sleeping worker / confirm or hold the event / persist / graceful stop / crash / start / replace the file (rename+create or delete+create, live or while down) / sync; B in {64,65,100}, EventMaxRecords in {1,2,3,1000}, formats pure and text; a case is non-trivial iff a record was split by the full buffer or an EOF fell inside a line; distinct by the Coq case term"
+const rule = "stream scanner: a file of lines (lengths 0, 1-12, B-1, B, B+1, B+2, 2B+3 incl. newline; bytes incl. NUL, 0x80-0xff, CR, quotes; final newline missing in 1/4; k8json/logfmt: well-formed JSON lines shorter than B) appended in 1-20 pieces cut anywhere, scheduled online against the real scanner: append / release the sleeping worker / confirm or hold the event / persist / graceful stop / crash / start / replace the file (rename+create live - also while a confirmation is pending -, or delete+create / truncate while down) / sync / release or confirm the worker of the rotated-away file; B in {64,65,100} (256 for k8json, logfmt), EventMaxRecords in {1,2,3,1000}, formats pure, text, k8json, logfmt. stream collector: the real collector.Run with a stand-in api.Client: append / release the worker / answer the pending Write call (stored, communication error, failed by the server) / graceful stop / crash / start. A case is non-trivial iff a record was split by the full buffer, an EOF fell inside a line, a worker drained a rotated-away file, or a Write failed; distinct by the Coq case term"
 
 func main() {
 	Main("C17", "C17K", func(c *Ctx) error {
@@ -961,7 +1328,8 @@ func main() {
 			c.Add(*cs)
 			return c.Finish(rule)
 		}
-		n := c.N(450)
+		n := c.N(380)
+		nc := c.N(90)
 		type job struct {
 			rp *Replay
 			r  *Rng
@@ -972,9 +1340,20 @@ func main() {
 		}
 		for i := 0; i < n; i++ {
 			r := c.Rng.Fork()
-			rp := &Replay{B: r.PickInt(64, 64, 64, 65, 100), Rpe: r.PickInt(1, 2, 3, 3, 1000), Format: r.PickStr("pure", "pure", "text"), steps: r.PickInt(12, 25, 40, 60)}
+			rp := &Replay{B: r.PickInt(64, 64, 64, 65, 100), Rpe: r.PickInt(1, 2, 3, 3, 1000), Format: r.PickStr("pure", "pure", "pure", "text", "text", "k8json", "logfmt"), steps: r.PickInt(12, 25, 40, 60)}
+			if rp.Format == "k8json" || rp.Format == "logfmt" {
+				rp.B = 256
+			}
 			if r.Chance(1, 2) {
-				rp.Init = flat(genPieces(r, rp.B, r.PickInt(10, 100, 200)))
+				rp.Init = flat((&lineGen{format: rp.Format}).pieces(r, rp.B, r.PickInt(10, 100, 200)))
+			}
+			jobs = append(jobs, job{rp, r})
+		}
+		for i := 0; i < nc; i++ {
+			r := c.Rng.Fork()
+			rp := &Replay{Stream: "collector", B: r.PickInt(64, 64, 65), Rpe: r.PickInt(1, 2, 3, 1000), Format: r.PickStr("pure", "text"), steps: r.PickInt(12, 25, 40)}
+			if r.Chance(2, 3) {
+				rp.Init = flat((&lineGen{format: rp.Format}).pieces(r, rp.B, r.PickInt(10, 100, 200)))
 			}
 			jobs = append(jobs, job{rp, r})
 		}
